@@ -200,6 +200,10 @@ def random_dag_case(rng, kind, max_n=40, parallel=False):
     perm = list(range(n))
     rng.shuffle(perm)  # perm = a topological order of the labels
     p = rng.choice([0.03, 0.08, 0.15, 0.3, 0.5]) if n > 6 else rng.choice([0.3, 0.5, 0.8])
+    if n > 12:
+        # breadth_first(node) calls are_dependent once per (child, parent) pair and every call sorts the
+        # graph twice: keep |E| <= ~2.5 |V| on the larger graphs so that one case stays well under a second
+        p = min(p, 5.0 / (n - 1))
     edges = [(perm[i], perm[j]) for i in range(n) for j in range(i + 1, n) if rng.random() < p]
     if parallel and edges:
         edges += [rng.choice(edges) for _ in range(rng.randint(1, 3))]
@@ -222,7 +226,7 @@ def random_dag_case(rng, kind, max_n=40, parallel=False):
     else:
         ops = build_ops(n, edges, style, node_order)
     wm = rng.choice([("small", "wide"), ("ones", "small"), ("wide", "zeros"), ("small", "neg")])
-    ops.append(query_op(rng, range(n), n, full=(n <= 6), wmodes=wm))
+    ops.append(query_op(rng, range(n), n, full=(n <= 6), max_ns=(6 if n <= 15 else 2), wmodes=wm))
     return decorate(rng, {"kind": kind, "ops": ops}, range(n))
 
 
